@@ -5,10 +5,15 @@
 #![allow(clippy::all)]
 
 mod c04;
+mod c06;
+mod c07;
 mod c09;
+mod c16;
 mod c18;
+mod endops;
 mod c20;
 mod memws;
+mod raw;
 mod monitors;
 mod sim;
 mod streams;
@@ -61,11 +66,15 @@ fn main() {
     let (cmd, p) = parse_args();
     let t0 = std::time::Instant::now();
     let (st, rule): (Stats, &str) = match cmd.as_str() {
+        "c06" => c06::run(&p),
+        "c07" => c07::run(&p),
         "c09" => c09::run(&p),
         "c02" => streams::run_family(&p, &streams::C02),
         "c03" => streams::run_family(&p, &streams::C03),
         "c04" => c04::run(&p),
         "c05" => streams::run_family(&p, &streams::C05),
+        "c11" => streams::run_family(&p, &streams::C11),
+        "c16" => c16::run(&p),
         "c18" => c18::run(&p),
         "c20" => c20::run(&p),
         "noop" => (Stats::new(), "noop"),
